@@ -179,7 +179,7 @@ def gen_edit(rng, spec: dict) -> dict:
             return {"t": t, "var": ["out", vi], "which": which, "v": fenc(v)}
         if t == "rule_weight":
             bi = rng.randrange(len(spec["blocks"]))
-            return {"t": t, "b": bi, "r": rng.randrange(len(spec["blocks"][bi]["rules"])), "v": fenc(rng.choice([0.1, 0.5, 0.9, 1.0, 2.0]))}
+            return {"t": t, "b": bi, "r": rng.randrange(len(spec["blocks"][bi]["rules"])), "v": fenc(rng.choice([0.1, 0.5, 0.9, 1.0, 2.0, 0.3456, 0.9995, 0.123456789]))}
         if t == "resolution":
             cands = [i for i, o in enumerate(spec["outputs"]) if o["defuzzifier"] and "resolution" in o["defuzzifier"]]
             if cands:
